@@ -3,10 +3,11 @@
 From Coq Require Import QArith Qcanon List String.
 From Coq Require Extraction ExtrOcamlBasic ExtrOcamlString.
 From S2 Require Import Base.Num Base.Arr Model.Expr Model.Struct Model.Rates Model.InitPop
-     Model.Solvers Model.Derived Model.Run Model.Program.
+     Model.Solvers Model.Derived Model.Run Model.Program Model.Api.
 
 Definition q_this (x : Qc) : Q := this x.
 
 Extraction "summer_model.ml"
   build build_ok one_step run_model initial_population env_of eval QcOps q_this Q2Qc
-  query_compartments query_flows serialize num_times.
+  query_compartments query_flows serialize num_times
+  steps init_api.
